@@ -43,12 +43,27 @@ fn fcs_values(seed: u64) -> Vec<u64> {
 const BOTH_WD: [u8; 8] = [0x00, 0x07, 0x50, 0x88, 0x89, 0x90, 0xA0, 0xF8];
 const BOTH_FCS: [u64; 8] = [256, 1000, 65_791, 65_792, 1 << 20, (1 << 27) - 1, 1 << 27, 1 << 33];
 const N_BOTH: u64 = 64;
+/// headers with a window descriptor AND a Dictionary_ID field (1/2/4 bytes; value 0 = "no
+/// dictionary", or an id the decoder does not hold: then the window verdict comes first and a
+/// frame within the limit ends in DictNotProvided, which counts as "window accepted")
+const N_DICT: u64 = 48;
 
 /// header variant h: 0..=255 window descriptors, then single-segment content sizes, then
 /// window descriptor + content size together
 fn header_variant(h: u64, seed: u64) -> (Vec<u8>, u64, bool) {
     let mut f = MAGIC.to_le_bytes().to_vec();
     let n_fcs = fcs_values(seed).len() as u64;
+    if h >= 256 + n_fcs + N_BOTH {
+        let k = h - 256 - n_fcs - N_BOTH;
+        let wd = BOTH_WD[(k % 8) as usize];
+        let width = (k / 8 % 3) as usize;
+        let id: u32 = if k / 24 % 2 == 0 { 0 } else { [0xF8, 0x5001, 0x0102_0350][width] };
+        f.push(1 + width as u8);
+        f.push(wd);
+        f.extend_from_slice(&id.to_le_bytes()[..[1, 2, 4][width]]);
+        f.extend_from_slice(&[0x09, 0, 0, 0x42]);
+        return (f, window_from_descriptor(wd), false);
+    }
     if h >= 256 + n_fcs {
         let k = h - 256 - n_fcs;
         let wd = BOTH_WD[(k % 8) as usize];
@@ -156,6 +171,8 @@ fn classify<T>(r: Result<T, FrameDecoderError>) -> Verdict {
     match r {
         Ok(_) => Verdict::Accepted,
         Err(FrameDecoderError::WindowSizeTooBig { requested, max }) => Verdict::TooBig { requested, max },
+        // the window was within the limit; the frame names a dictionary this decoder was not given
+        Err(FrameDecoderError::DictNotProvided { .. }) => Verdict::Accepted,
         Err(e) => Verdict::Other(format!("{e}")),
     }
 }
@@ -285,7 +302,7 @@ pub fn run(eng: &Engine) {
     eng.assume("acceptance on paths that reserve the whole window eagerly (reset of a used decoder) is executed only for windows <= 64 MiB; excluded (header, path) pairs are counted under features excluded:*; rejection is executed everywhere");
     eng.assume("the allocation clause is checked for windows >= 64 KiB (below that a window-sized request cannot be told from ordinary scratch)");
     let seed = eng.seed;
-    let headers = 256 + fcs_values(seed).len() as u64 + N_BOTH;
+    let headers = 256 + fcs_values(seed).len() as u64 + N_BOTH + N_DICT;
     let total = headers * N_CTOR * N_ORDER * N_LIMITS * N_POS * N_FRONT;
     eng.run_enumerated("window_limit_product", "header variant x limit class x position x front end", total, 512, move |i, c| item(i, c, seed));
     // single-segment sizes and random limits are sampled, the descriptor product is complete
